@@ -108,7 +108,19 @@ def pkts (impl : String) : P Verdict := do
       pure { modelEq := impl == model, specOk := some ok, kf := if ok then [] else kf.eraseDups, tag := tag,
              model := model, spec := if ok then "holds" else "EstOk-fails" }
 
+/-- `C19.exp <cap> <n> (<mono ms> <wall> <conn> <fromClient> <ts>)*` — as `C19.seq`, but the harness
+really waits until `<mono>` ms have passed since the tracker was created, so entries expire on the
+cache's own clock. Compared against the model only (the abstract map has no expiry). -/
+def exp (impl : String) : P Verdict := do
+  let cap ← nat
+  let os ← list (do let m ← nat; let o ← pObs; pure { o with mono := m })
+  let outs := run { cap := cap } os
+  let model := ",".intercalate (outs.map showOut)
+  let tags := runTags { cap := cap } os
+  let tag := "exp-" ++ (if tags.contains "store:expired" then "expired" else "live")
+  pure { modelEq := impl == model, specOk := none, tag := tag, model := model, spec := "-" }
+
 def handlers : List (String × (String → P Verdict)) :=
-  [("C19.seq", seq), ("C19.pkts", pkts)]
+  [("C19.seq", seq), ("C19.pkts", pkts), ("C19.exp", exp)]
 
 end Huginn.Drv.C19
